@@ -392,7 +392,15 @@ func addDecoys(k *h.Case, g *spec.Gen, prog *spec.Program, defs []*constDef) {
 			prog.Items = append(prog.Items, &spec.TextItem{ID: prog.NewID(), Name: n, Val: &spec.TextVal{ID: prog.NewID(), Parts: []string{"say " + n + " now"}}})
 			k.Count("decoy_text_name_and_content", 1)
 		case 6: // mart name / mapscripts name, map script type and plain label
-			prog.Items = append(prog.Items, &spec.MapScripts{ID: prog.NewID(), Name: g.Name("Map"), Entries: []*spec.MSEntry{{ID: prog.NewID(), Type: n, Kind: 0, Label: n}}})
+			ms := &spec.MapScripts{ID: prog.NewID(), Name: g.Name("Map"), Entries: []*spec.MSEntry{{ID: prog.NewID(), Type: n, Kind: 0, Label: n}}}
+			if r.IntN(2) == 0 {
+				// the script label of a table row (the row's var and value are use sites, its label is a name)
+				ms.Entries = append(ms.Entries, &spec.MSEntry{ID: prog.NewID(), Type: "MAP_SCRIPT_ON_FRAME_TABLE", Kind: 2, Rows: []*spec.MSRow{
+					{ID: prog.NewID(), Var: []string{"VAR_TEMP_0"}, Value: []string{"1"}, Label: n},
+					{ID: prog.NewID(), Var: []string{"VAR_TEMP_0"}, Value: []string{"2"}, Label: g.Name("Other")}}})
+				k.Count("decoy_table_row_label", 1)
+			}
+			prog.Items = append(prog.Items, ms)
 			k.Count("decoy_mapscript_type_and_label", 1)
 		case 7: // goto target (an argument: substituted) is NOT a decoy; poryswitch key and case name are
 			if len(scripts) > 0 {
@@ -588,6 +596,57 @@ func runC13(ctx *h.Ctx) int {
 		}
 		k.Nontrivial(sig.String(), k.Local("const_uses"), len(r1.Out)%53)
 		k.Sample("pair", map[string]interface{}{"source": pr.Src, "substituted_source": p2.Src})
+	})
+	// positions the documentation does not list (here: the multiplier of a movement step). Whether such a position
+	// takes constants is not judged; but when it does for one spelling of a number it is a use site like any other:
+	// the output equals the written-out program, and the same number spelled in hexadecimal - accepted when written
+	// out - must be taken as well
+	ctx.RunCases("unlisted-positions", ctx.N(200, 4000), func(k *h.Case) {
+		pairs := [][2]string{{"3", "0x3"}, {"2", "0x02"}, {"10", "0xA"}, {"12", "0xc"}}
+		pr := pairs[k.R.IntN(len(pairs))]
+		step := []string{"walk_up", "face_down", "delay_16"}[k.R.IntN(3)]
+		form := k.R.IntN(2)
+		mk := func(val string, useConst bool) string {
+			m := val
+			def := ""
+			if useConst {
+				m, def = "STEPS", "const STEPS = "+val+"\n"
+			}
+			if form == 0 {
+				return def + "movement Mv {\n  walk_left\n  " + step + " * " + m + "\n  walk_right\n}\n"
+			}
+			return def + "script Sc {\n  applymovement(2, moves(walk_left, " + step + " * " + m + ", walk_right))\n}\n"
+		}
+		o := h.Opts{Optimize: true}
+		var res [2]h.Result
+		for i, val := range pr {
+			withConst, written := h.Compile(mk(val, true), o), h.Compile(mk(val, false), o)
+			k.Count("evaluations", 2)
+			k.SetSource(mk(val, true))
+			if withConst.Panic != nil {
+				k.Violation("panic", fmt.Sprintf("panic: %v", withConst.Panic), nil)
+				return
+			}
+			if !written.OK() {
+				k.C.Inconclusive("a movement with a literal multiplier is rejected: %s", written.ErrString())
+				return
+			}
+			if withConst.OK() && withConst.Out != written.Out {
+				k.Violation("unlisted-position-differs", fmt.Sprintf("a constant is accepted as the multiplier of a movement step, but the output differs from the program with the value %s written out", val), map[string]interface{}{"with_constant": withConst.Out, "written_out": written.Out})
+				return
+			}
+			res[i] = withConst
+		}
+		switch {
+		case res[0].OK() != res[1].OK():
+			k.Violation("unlisted-position-inconsistent", fmt.Sprintf("a constant with the value %s is taken as the multiplier of a movement step (accepted: %v), one with the value %s is not (accepted: %v), although both compile when written out", pr[0], res[0].OK(), pr[1], res[1].OK()), map[string]interface{}{"error": res[0].ErrString() + res[1].ErrString()})
+			return
+		case res[0].OK():
+			k.Count("unlisted_position_takes_constants", 1)
+		default:
+			k.Count("unlisted_position_rejects_constants", 1)
+		}
+		k.Nontrivial("unlisted", pr[0], step, form)
 	})
 	// redefinition must be rejected
 	ctx.RunCases("redefinition", ctx.N(800, 20000), func(k *h.Case) {
